@@ -828,6 +828,17 @@ func (c *Ctx) Int2Bv(w int, a *Term) *Term {
 	if a.isConst() {
 		return c.BVBig(w, a.big)
 	}
+	if a.op == OBv2Nat && len(a.args) == 1 { // int2bv_w(bv2nat(x)): x itself, truncated or zero-extended to w bits
+		x := a.args[0]
+		switch {
+		case x.sort.W == w:
+			return x
+		case x.sort.W > w:
+			return c.Extract(w-1, 0, x)
+		default:
+			return c.Zext(w, x)
+		}
+	}
 	return c.mk(OInt2Bv, bvSort(w), "", w, 0, a)
 }
 
